@@ -764,6 +764,20 @@ fn stack_replay(v: Value) -> Result<(), Fail> {
     probe(&c).map(|_| ())
 }
 
+// ------------------------------------------------------------------ coverage-guided lane (libFuzzer)
+
+fn fuzz_spec() -> crate::fuzzlane::FuzzSpec {
+    crate::fuzzlane::FuzzSpec { target: "hostile_frame", oracle: judge_decoder, seeds: crate::fuzzlane::seeds_frames, max_len: 512, runs_per_worker: 2000000 }
+}
+
+fn fuzz_run(ctx: &Ctx, known: &[crate::runner::KnownFinding]) -> crate::runner::LaneReport {
+    crate::fuzzlane::run(&fuzz_spec(), ctx, known)
+}
+
+fn fuzz_replay(v: serde_json::Value) -> Result<(), Fail> {
+    crate::fuzzlane::replay(&fuzz_spec(), v)
+}
+
 pub fn property() -> Property {
     Property {
         id: "C11",
@@ -777,6 +791,7 @@ pub fn property() -> Property {
             Box::new(PLane { name: "decoder", cases: |t| t.pick(8_000, 200_000), strat: dec_strat, check: check_dec }),
             Box::new(PLane { name: "driver", cases: |t| t.pick(800, 15_000), strat: drv_strat, check: check_drv }),
             Box::new(FnLane { name: "stack", run: stack_run, replay: stack_replay }),
+            Box::new(crate::runner::FnLane { name: "fuzz", run: fuzz_run, replay: fuzz_replay }),
         ],
         workers: (8, 16),
     }
